@@ -107,7 +107,8 @@ CLAIMED["C12"] = dict(
 CLAIMED["C14"] = dict(
     text=("Partial proof of the per-function facts: isReservedHeader reserves every protocol-owned key (content-type, grpc-status, grpc-message, grpc-encoding, grpc-status-details-bin, grpc-timeout, te) for all strings; "
           "setOutgoingHeader never writes such a key from handler header/trailer metadata into the response and newIncomingContext never injects one into incoming metadata; "
-          "decodeBinHeader accepts exactly the texts that are valid padded or unpadded base64; in serveGRPC, after the header flush, handler metadata is written only through setOutgoingTrailer (trailer-prefixed keys), never as plain headers."),
+          "decodeBinHeader accepts exactly the texts that are valid padded or unpadded base64; in serveGRPC, after the header flush, handler metadata is written only through setOutgoingTrailer (trailer-prefixed keys), never as plain headers; "
+          "in serveHTTP an error reply is written only after the handler's header metadata went out (with the first message, or copied before the error document)."),
     note=TRUST + "Assumed: base64 DecodeString succeeds exactly on valid text of its encoding (uninterpreted validity predicates with two axioms, listed). Not decided: lower-casing and value order (strings.ToLower, map iteration), byte-exactness of decoded values, trailer announcement and the gRPC-web trailer frame, net/http header canonicalisation.",
     ref="DESIGN.md sections 5 C14 and 10.3")
 CLAIMED["C16"] = dict(
